@@ -55,6 +55,7 @@ fn main() {
     "replay-mapper" => h_mapper::replay(&opts),
     "gen-tables" => h_tables::run(&opts),
     "loop" => h_loop::run(&opts),
+    "replay-loop" => h_loop::replay(&opts),
     "bytes" => h_bytes::run(&opts),
     "replay-bytes" => h_bytes::replay(&opts),
     "escape" => h_escape::run(&opts),
